@@ -749,18 +749,23 @@ HetWSq(dx, dk, s) ==
            [] ls = 2 -> [W |-> Q([i \in 1..dk |-> IF i = 1 THEN <<1, 6, 0>> ELSE <<-2, -9, 3>>], 2),
                          sh |-> MkSeq(dk, LAMBDA i : IF i = 1 THEN Q(1, 1) ELSE Q(1, 1))]
 
-ANewHet(cls, dy, da, dk, dx, s) ==
+\* zero input weights, non-zero offsets (homoscedastic limit)
+HetWZero(dk, dx, s) == Q([i \in 1..dk |-> [d \in 1..(dx + 1) |-> IF d = 1 THEN (IF (i + s) % 2 = 0 THEN 1 + i ELSE 0 - i - (s % 2) - 1) ELSE 0]], 3)
+
+ANewHetZ(cls, dy, da, dk, dx, s, zw) ==
     LET sq == cls \in {"HetStep", "HetRelu"}
         qM == MMenu(dy, dx)[((s + 1) % 3) + 1]
         qb == VEC2(dy)[(s % 4) + 1]
         qA == HetA(dy, da, s)
         ws == HetWSq(dx, dk, s)
-        qW == IF sq THEN ws.W ELSE HetWGen(dk, dx, s)
+        qW == IF zw THEN HetWZero(dk, dx, s) ELSE IF sq THEN ws.W ELSE HetWGen(dk, dx, s)
         c == [cls |-> cls, M |-> <<QM(qM)>>, b |-> <<QV(qb)>>, A |-> QM(qA), W |-> QM(qW),
-              sh |-> IF sq THEN MkSeq(dk, LAMBDA i : QS(ws.sh[i])) ELSE MkSeq(dk, LAMBDA i : 0), qW |-> qW]
-    IN /\ dy <= da /\ dk <= da /\ (sq => dx <= 2)
+              sh |-> IF sq THEN MkSeq(dk, LAMBDA i : QS(ws.sh[i])) ELSE MkSeq(dk, LAMBDA i : 0), qW |-> qW, zw |-> zw]
+    IN /\ dy <= da /\ dk <= da /\ (sq => dx <= 2) /\ (zw => ~sq)
        /\ Emit(Append(heap, c),
                Step("NewHet", [cls |-> cls, M |-> qM, b |-> qb, A |-> qA, W |-> qW], NoObj, NextId, Opaque(cls), 0, NoObj, NoObj))
+
+ANewHet(cls, dy, da, dk, dx, s) == ANewHetZ(cls, dy, da, dk, dx, s, FALSE)
 
 \* exact value of the linear layer h_i(x) = w_i'x + w0_i at a menu point, as a rational [n, d] in plain integers
 HLin(qW, i, qx) ==
@@ -806,9 +811,11 @@ AHetTransform(kind, i, j) ==
 AHetIntLogCondY(i, j, s) ==
     LET c == heap[i] p == heap[j] R == NumR(p)
         qY == Pick(PointMenu(HDy(c)), R, s)
-    IN /\ c.cls = "HetStep" /\ IsPdf(p) /\ NumD(p) = HDx(c) /\ HDa(c) = HDy(c) /\ R = 1
-       /\ Emit(heap, Step("HetIntLogCondY", [i |-> i, j |-> j, y |-> qY], NoObj, 0, NoObj, 0, NoObj,
-                          [val |-> MkSeq(R, LAMBDA r : StepIntLogCondY(c, p, r, QV(qY[r]), c.sh))]))
+    IN /\ (c.cls = "HetStep" \/ (c.cls \in {"HetExp", "HetCosh"} /\ c.zw))
+       /\ IsPdf(p) /\ NumD(p) = HDx(c) /\ HDa(c) = HDy(c) /\ R = 1
+       /\ Emit(heap, Step("HetIntLogCondY", [i |-> i, j |-> j, y |-> qY, zw |-> c.zw], NoObj, 0, NoObj, 0, NoObj,
+                          [val |-> MkSeq(R, LAMBDA r : IF c.cls = "HetStep" THEN StepIntLogCondY(c, p, r, QV(qY[r]), c.sh)
+                                                        ELSE ZeroWIntLogCondY(c, p, r, QV(qY[r])))]))
 
 \* ------------------------------------------------------------------------
 \* Properties that are meaningful in every state of every instance
